@@ -13,7 +13,7 @@ import random
 
 # argument kinds: type, list of (pattern text, class) where class in {lit, str, slice, wild, bind, refutable...}
 ARGS = {
-    'i32': ('i32', ['1', '1 | 2', '3..=5', '_', 'x', 'x @ 1..=9', '-1']),
+    'i32': ('i32', ['1', '1 | 2', '3..=5', '_', 'x', 'x @ 1..=9', '-1', '5..', '..=4', '2..7', 'y @ 3..']),
     'bool': ('bool', ['true', 'false', '_']),
     'char': ('char', ["'a'", "'a'..='z'", '_']),
     'str': ('&str', ['"x"', '"x" | "y"', '_', 's', '""']),
@@ -167,6 +167,12 @@ def generate(tier, seed):
         a0[p0] = '%s!(%s)' % (m0, eq2[k][0])
         a1[p1] = '%s!(%s)' % (m1, eq2[k][1])
         cases.append(dict(kinds=[k] * arity, alts=[a0, a1], guard=None, form='disj'))
+    # (4d) hygiene: bindings named like the identifiers the macro generates for its own use (argument `a{i}`, operand local `l{n}`) next to
+    #      eq!/ne! operands at the position such a name would refer to - the user's binding must not capture what the comparison reads
+    cases.append(dict(kinds=['i32', 'i32'], alts=[['a1', 'eq!(&7)']], guard=None, form='simple'))
+    cases.append(dict(kinds=['i32', 'i32'], alts=[['ne!(&7)', 'a0']], guard=None, form='simple'))
+    cases.append(dict(kinds=['i32', 'i32', 'i32'], alts=[['a2', '_', 'eq!(&7)'], ['a2', '6', '_']], guard=None, form='disj'))
+    cases.append(dict(kinds=['i32', 'i32'], alts=[['l0', 'eq!(&7)']], guard='*l0 > 3', form='disj'))
     # (5) empty matcher
     cases.append(dict(kinds=[], alts=[[]], guard=None, form='empty'))
     # (5b) a function without arguments still has a pattern - the empty tuple - and may carry a guard (one and two alternatives)
